@@ -1721,4 +1721,111 @@ example :
 
 end T8
 
+/-! ## T9 — no thread-affine state behind the API (round 4)
+
+Library items, runtimes, packages and function handles are `Send`: the thread that
+uses one need not be the thread that created it. A table keyed by the RUNNING
+THREAD (`thread_local!`) in front of a process-global table is harmless only as a
+pure cache: a miss in the thread's table must fall through to the table every
+thread shares. Translator target `c12globals` lists every `static` of every
+`thread_local!` under src/ with the functions that name it. -/
+section T9
+open Share
+
+/-- **T9, what the decision buys.** If a lookup function passes `TlFn.fallsThrough`
+and every thread's table holds only copies of shared entries, the answer on EVERY
+thread, whatever that thread resolved before, is the entry of the shared table —
+the answer of a process with one thread and empty caches. -/
+theorem pure_cache_thread_independent (fn : TlFn) (h : fn.fallsThrough = true)
+    (shared : Nat → Option Nat) (cache : Nat → Nat → Option Nat) (hc : CacheCoherent shared cache) (t k : Nat) :
+    tlGet fn shared cache t k = shared k := by
+  unfold TlFn.fallsThrough at h
+  unfold tlGet
+  cases hl : fn.ops.contains .lookup with
+  | false => simp
+  | true =>
+    have hs : fn.sharedAfterLookup = true := by
+      cases hsa : fn.sharedAfterLookup with
+      | true => rfl
+      | false => rw [hl, hsa] at h; simp at h
+    simp only [if_true]
+    cases hck : cache t k with
+    | none => simp [hs]
+    | some v => simp [hc t k v hck]
+
+/-- the answer does not depend on the thread (corollary, the form the property uses:
+created on one thread, used on another = everything on one thread) -/
+theorem pure_cache_same_on_all_threads (fn : TlFn) (h : fn.fallsThrough = true)
+    (shared : Nat → Option Nat) (cache : Nat → Nat → Option Nat) (hc : CacheCoherent shared cache) (t t' k : Nat) :
+    tlGet fn shared cache t k = tlGet fn shared cache t' k := by
+  rw [pure_cache_thread_independent fn h shared cache hc t k, pure_cache_thread_independent fn h shared cache hc t' k]
+
+/-- the witness state: the shared table has every key; thread 0 resolved it, thread 1 did not -/
+def exShared : Nat → Option Nat := fun _ => some 1
+def exCache : Nat → Nat → Option Nat := fun t _ => if t = 0 then some 1 else none
+
+theorem exCache_coherent : CacheCoherent exShared exCache := by
+  intro t k v hv
+  unfold exCache at hv
+  unfold exShared
+  by_cases ht : t = 0
+  · rw [if_pos ht] at hv; exact hv
+  · rw [if_neg ht] at hv; cases hv
+
+/-- **T9, the decision is exact** (for functions whose operations are all recognised):
+a function that answers from the thread's table and does NOT fall through gives, in a
+coherent state, different answers on two threads — the thread that resolved the key
+and one that did not (refutation by witness). -/
+theorem thread_affine_lookup_differs (fn : TlFn) (hl : fn.ops.contains .lookup = true) (hs : fn.sharedAfterLookup = false) :
+    CacheCoherent exShared exCache ∧ tlGet fn exShared exCache 0 0 = some 1 ∧ tlGet fn exShared exCache 1 0 = none := by
+  refine ⟨exCache_coherent, ?_, ?_⟩
+  · unfold tlGet; rw [if_pos hl]; simp [exCache]
+  · unfold tlGet; rw [if_pos hl]; simp [exCache, hs]
+
+theorem thread_locals_sound (fn : TlFn) (hrec : fn.ops.contains .other = false) :
+    fn.fallsThrough = true ↔
+      ∀ (shared : Nat → Option Nat) (cache : Nat → Nat → Option Nat), CacheCoherent shared cache →
+        ∀ t k, tlGet fn shared cache t k = shared k := by
+  constructor
+  · intro h shared cache hc t k
+    exact pure_cache_thread_independent fn h shared cache hc t k
+  · intro h
+    unfold TlFn.fallsThrough
+    rw [hrec]
+    cases hl : fn.ops.contains .lookup with
+    | false => simp
+    | true =>
+      cases hs : fn.sharedAfterLookup with
+      | true => simp
+      | false =>
+        have h1 := (thread_affine_lookup_differs fn hl hs).2.2
+        have h2 := h exShared exCache exCache_coherent 1 0
+        rw [h1] at h2
+        simp [exShared] at h2
+
+/-- **T9 on the current tree**: every `thread_local!` static under src/ (outside the
+hooks and tests) is a pure cache — no function answers from the running thread's
+table alone. (The unchanged tree has none: the list is empty and the obligation is
+that it stays so or that every new one falls through.) -/
+theorem thread_locals_pure_caches_on_tree : threadLocalsPureCaches Gen.C12Globals.facts = true := by decide
+
+/-- non-vacuity of the decision: a cache in front of a mutex-guarded table whose `get`
+falls through passes; the same with a `get` that reads only the thread's table, or
+with an unrecognised use, does not -/
+example :
+    threadLocalsPureCaches { threadLocals := 1, statics := [], threadLocalTables :=
+      [{ fns := [{ ops := [.insert], sharedAfterLookup := false }, { ops := [.lookup], sharedAfterLookup := true }] }] } = true
+    ∧ threadLocalsPureCaches { threadLocals := 1, statics := [], threadLocalTables :=
+      [{ fns := [{ ops := [.insert], sharedAfterLookup := false }, { ops := [.lookup], sharedAfterLookup := false }] }] } = false
+    ∧ threadLocalsPureCaches { threadLocals := 1, statics := [], threadLocalTables :=
+      [{ fns := [{ ops := [.other], sharedAfterLookup := true }] }] } = false
+    ∧ threadLocalsPureCaches { threadLocals := 0, statics := [], threadIdUses := 1 } = false := by
+  decide
+
+/-- non-vacuity of `pure_cache_thread_independent`: a coherent state with a warm and a cold thread -/
+example : CacheCoherent exShared exCache ∧ tlGet { ops := [.lookup], sharedAfterLookup := true } exShared exCache 1 0 = some 1 :=
+  ⟨exCache_coherent, by simp [tlGet, exCache, exShared]⟩
+
+end T9
+
 end RotoV.C12
